@@ -767,6 +767,13 @@ func (rw *responseWriter) Hijack() (net.Conn, *bufio.ReadWriter, error) {
 	return h.Hijack()
 }
 
+// Flush implements the http.Flusher interface so streamed responses (chunked, SSE) reach the client
+func (rw *responseWriter) Flush() {
+	if f, ok := rw.ResponseWriter.(http.Flusher); ok {
+		f.Flush()
+	}
+}
+
 // Stop gracefully shuts down the load balancer and waits for all health check goroutines to finish
 func (lb *LoadBalancer) Stop() {
 	logging.L().Info().Msg("shutting down load balancer")
